@@ -96,8 +96,6 @@ func modelEffects(full string) []string {
 		return []string{"G_held"}
 	case "(*sync.Cond).Broadcast", "(*sync.Cond).Signal":
 		return []string{"G_dirty"}
-	case "(*sync.Cond).Wait":
-		return []string{"*"}
 	}
 	if pureModels[full] {
 		return []string{}
@@ -125,24 +123,30 @@ func (vc *VC) modelCall(fr *Frame, st *State, callee *ssa.Function, args []strin
 	full := callee.String()
 	switch full {
 	case "(*sync.Mutex).Lock", "(*sync.RWMutex).Lock":
+		vc.noteLock(args[0])
 		vc.svDeclare("G_held", "(Array Int Int)")
 		h := vc.get(st, "G_held")
 		vc.lockObl(fr, st, "lock", "lock is not already held by this thread at Lock (self-deadlock)", fmt.Sprintf("(= (select %s %s) 0)", h, args[0]), pos)
 		vc.set(st, "G_held", fmt.Sprintf("(store %s %s 1)", h, args[0]))
+		vc.acquire(fr, st)
 		return nil, true
 	case "(*sync.Mutex).Unlock", "(*sync.RWMutex).Unlock":
+		vc.noteLock(args[0])
 		vc.svDeclare("G_held", "(Array Int Int)")
 		h := vc.get(st, "G_held")
 		vc.lockObl(fr, st, "lock", "lock is held at Unlock", fmt.Sprintf("(= (select %s %s) 1)", h, args[0]), pos)
 		vc.set(st, "G_held", fmt.Sprintf("(store %s %s 0)", h, args[0]))
 		return nil, true
 	case "(*sync.RWMutex).RLock":
+		vc.noteLock(args[0])
 		vc.svDeclare("G_held", "(Array Int Int)")
 		h := vc.get(st, "G_held")
 		vc.lockObl(fr, st, "lock", "lock is not already held by this thread at RLock", fmt.Sprintf("(= (select %s %s) 0)", h, args[0]), pos)
 		vc.set(st, "G_held", fmt.Sprintf("(store %s %s 2)", h, args[0]))
+		vc.acquire(fr, st)
 		return nil, true
 	case "(*sync.RWMutex).RUnlock":
+		vc.noteLock(args[0])
 		vc.svDeclare("G_held", "(Array Int Int)")
 		h := vc.get(st, "G_held")
 		vc.lockObl(fr, st, "lock", "read lock is held at RUnlock", fmt.Sprintf("(= (select %s %s) 2)", h, args[0]), pos)
@@ -290,6 +294,15 @@ func (vc *VC) modelInvoke(fr *Frame, st *State, c *ssa.CallCommon, recv string, 
 
 // ------------------------------------------------------------------ K2: locks, guarded fields, dirty bit
 
+func (vc *VC) noteLock(t string) {
+	for _, x := range vc.lockTerms {
+		if x == t {
+			return
+		}
+	}
+	vc.lockTerms = append(vc.lockTerms, t)
+}
+
 func (vc *VC) lockObl(fr *Frame, st *State, kind, desc, goal string, pos token.Pos) {
 	if vc.inSpec > 0 {
 		return
@@ -303,6 +316,7 @@ func (vc *VC) condWait(fr *Frame, st *State, pos token.Pos) {
 	for _, sv := range vc.eng.guardedSVs(vc) {
 		vc.havocSV(st, sv)
 	}
+	vc.snapshotAtLock(st)
 	// the monitor invariant of the function (if declared) holds again after the wait
 	if vc.fc != nil {
 		for _, inv := range vc.fc.WaitInv {
@@ -314,6 +328,57 @@ func (vc *VC) condWait(fr *Frame, st *State, pos token.Pos) {
 			vc.fact(st.pc, t)
 		}
 	}
+}
+
+// acquire: on taking a lock the guarded fields hold whatever other threads left there
+// (interference happens while the lock is not held); the state at acquisition is remembered
+// for atlock() in specifications.
+func (vc *VC) acquire(fr *Frame, st *State) {
+	if vc.role() != "writer" && vc.role() != "init" {
+		for _, sv := range vc.eng.guardedSVs(vc) {
+			vc.havocSV(st, sv)
+		}
+	}
+	vc.snapshotAtLock(st)
+	if vc.fc != nil {
+		for _, inv := range vc.fc.WaitInv {
+			t, err := vc.specBool(vc.topFrame, st, inv, nil)
+			if err != nil {
+				vc.unsupportedf("waitinv of %s: %v", vc.fc.Key, err)
+				continue
+			}
+			vc.fact(st.pc, t)
+		}
+	}
+}
+
+func (vc *VC) snapshotAtLock(st *State) {
+	keys := make([]string, 0, len(vc.svSort))
+	for k := range vc.svSort {
+		if strings.HasPrefix(k, "L|") || strings.HasPrefix(k, "G_defer_") {
+			continue
+		}
+		keys = append(keys, k)
+	}
+	for _, k := range keys {
+		lk := "L|" + k
+		if _, ok := vc.svSort[lk]; !ok {
+			vc.svSort[lk] = vc.svSort[k]
+			vc.svInit[lk] = vc.svInit[k]
+		}
+		st.vars[lk] = vc.get(st, k)
+	}
+}
+
+// lockState reconstructs the state remembered at the most recent lock acquisition.
+func (vc *VC) lockState(st *State) *State {
+	out := &State{pc: st.pc, vars: map[string]string{}}
+	for k, v := range st.vars {
+		if strings.HasPrefix(k, "L|") {
+			out.vars[k[2:]] = v
+		}
+	}
+	return out
 }
 
 func (vc *VC) fieldOfAddr(addr ssa.Value) (types.Type, int, ssa.Value, bool) {
